@@ -218,12 +218,17 @@ def dateparse(val: str, t: type[DateTimeT]) -> DateTimeT:
         parsed: pendulum.DateTime | pendulum.Duration = pendulum.parse(  # type: ignore[assignment]
             val[1:] if negative else val
         )
-        if negative:
-            parsed = -datetime.timedelta(  # type: ignore[assignment]
-                days=parsed.days,
-                seconds=parsed.seconds,  # type: ignore[union-attr]
-                microseconds=parsed.microseconds,  # type: ignore[union-attr]
+        if isinstance(parsed, pendulum.Duration):
+            # The parser derives its `seconds` & `microseconds` from a float, which loses
+            #   precision for long durations. The fields of the base class are exact.
+            td = datetime.timedelta
+            parsed = td(  # type: ignore[assignment]
+                days=td.days.__get__(parsed),
+                seconds=td.seconds.__get__(parsed),
+                microseconds=td.microseconds.__get__(parsed),
             )
+            if negative:
+                parsed = -parsed  # type: ignore[operator]
         normalized = _nomalize_dt(val=val, parsed=parsed, td=t)
         return normalized
     except ValueError:
